@@ -1267,15 +1267,15 @@ class Run(C.Stream):
                 any_disabled = True
             if rng.random() < 0.6:
                 r = rng.random()
-                if r < 0.5 or self._has_forbidden(case):
+                if r < 0.68 or self._has_forbidden(case):
                     sd["injects"] = pick_shared(rng.choice([1, 1, 2]))
-                elif r < 0.92 or not test_scoped:
+                elif r < 0.95 or not test_scoped:
                     sd["injects"] = [rng.choice(pts)]
                 else:
                     sd["injects"] = [rng.choice(test_scoped)]
             if not sd.get("setup_uses") and rng.random() < 0.25:
                 # the other way a suite uses a fixture itself: an argument of its setup_suite
-                sd["setup_uses"] = pick_shared(1)[0] if (rng.random() < 0.5 or self._has_forbidden(case)) else rng.choice(pts)
+                sd["setup_uses"] = pick_shared(1)[0] if (rng.random() < 0.7 or self._has_forbidden(case)) else rng.choice(pts)
             if sd.get("setup_uses") and rng.random() < 0.6:
                 sd["setup_stores"] = True        # setup_suite keeps what it was given (self.x = x), the tests read it
         if any_disabled and rng.random() < 0.75:
